@@ -20,7 +20,7 @@ ASSUMPTIONS = ['CachedMethods compatibility shim', 'RDKit canonical isomeric SMI
                'pseudo-asymmetric centres are compared by atom identity only',
                'allene / cumulene stereo and coordinate bonds are outside the bridge (documented in the source)']
 CONFIG = {
-    'quick': {'shards': 16, 'budget_s': 120, 'n_corpus': 800, 'k_renum': 2,
+    'quick': {'shards': 16, 'budget_s': 300, 'n_corpus': 800, 'k_renum': 2,
               'floors': {'evaluations': 5000, 'distinct_nontrivial': 1200, 'to_rdkit.compared': 2500, 'from_rdkit.compared': 700,
                          'roundtrip.compared': 2500, 'stereo.labels-roundtripped': 1500, 'from_rdkit.explicit-h.all-hydrogens': 120,
                          'from_rdkit.explicit-h.deuterium-on-centre': 120, 'from_rdkit.explicit-h.position-0': 10,
